@@ -763,8 +763,9 @@ def check(pid, tier, seed):
                      'std::alloc, RefCell, Vec and rustc are trusted', 'specification oracle (coq/spec/Spec.v) is an unproved monitor used for search and replay'],
         wall_s=round(time.time() - t0, 1), violations=len(violations),
     )
-    os.makedirs(os.path.join(ROOT, 'evidence'), exist_ok=True)
-    json.dump(ev, open(os.path.join(ROOT, 'evidence', pid + '.json'), 'w'), indent=1, default=str)
+    evdir = os.environ.get('VERIF_EVIDENCE_DIR') or os.path.join(ROOT, 'evidence')   # seeded-change experiments write elsewhere
+    os.makedirs(evdir, exist_ok=True)
+    json.dump(ev, open(os.path.join(evdir, pid + '.json'), 'w'), indent=1, default=str)
     for k in known_hits:
         print(k)
     for v in violations:
